@@ -88,7 +88,14 @@ fn lambert_w(x: Decimal) -> Option<Decimal> {
         .and_then(|log| Decimal::new(4, 0).max(log.ceil()).to_i32())
         .unwrap_or(4)
         .min(128);
-    let mut w = Decimal::ZERO;
+    // start from the asymptotic estimate ln x - ln ln x once it is defined (x > e): from 0 the few
+    // Halley steps below do not reach the root for larger x
+    let mut w = if x > Decimal::E {
+        let ln_x = x.checked_ln()?;
+        ln_x.checked_sub(ln_x.checked_ln()?)?
+    } else {
+        Decimal::ZERO
+    };
     for _ in 0..iterations {
         let exp_w = w.checked_exp()?;
         let f = w.checked_mul(exp_w)?.checked_sub(x)?;
